@@ -61,7 +61,7 @@ func conformMain(rc *RunCtx) {
 	w := NewWorld(rc)
 	defer w.Shutdown()
 	counts := []int{1, 7, 8, 9, 16, 24, 64, 72, 80, 150}
-	spec := GenTorSpec(st, SpecOpts{PieceCounts: counts, MultiFile: 1})
+	spec := GenTorSpec(st, SpecOpts{PieceCounts: counts, MultiFile: 1, Huge: true})
 	config.PrefetchRate = float64(simrt.Pick(st, 0, 65536, 768*1024))
 	config.SetIdleRate(uint32(simrt.Pick(st, 65536, 0, 1<<20)))
 	t, err := w.AddTorrent(spec, false, "")
@@ -69,7 +69,16 @@ func conformMain(rc *RunCtx) {
 		rc.Fail("C11", "setup", "", "AddTorrent: %v", err)
 		return
 	}
-	held := drawHoldings(st, spec.Geo.NPieces)
+	var held []int
+	if spec.Sparse {
+		lp := spec.LivePieces()
+		held = drawHoldings(st, len(lp))
+		for k := range held {
+			held[k] = lp[held[k]]
+		}
+	} else {
+		held = drawHoldings(st, spec.Geo.NPieces)
+	}
 	w.Preload(t, spec, held)
 	w.Link = func() (simnet.LinkCfg, simnet.LinkCfg) { return drawSysLink(st) }
 	w.StartQuiescer(4 * time.Second)
@@ -93,7 +102,7 @@ func conformMain(rc *RunCtx) {
 	ctx, cancel := context.WithCancel(context.Background())
 	defer cancel()
 	if st.Bool(2, 3) {
-		off := int64(st.Choice(int(spec.Geo.Length)))
+		off := spec.DrawOffset(st)
 		simrt.GoNamed("reader", func() {
 			r := t.NewReader(ctx, off, spec.Geo.Length-off)
 			defer r.Close()
@@ -141,7 +150,7 @@ func conformMain(rc *RunCtx) {
 			}
 		case ev == 3 && len(live) > 0:
 			p := live[st.Choice(len(live))]
-			i := st.Choice(spec.Geo.NPieces)
+			i := spec.DrawPiece(st)
 			simrt.Fault("advertisement-changes")
 			p.SetHave(i, !p.Have[i])
 		case ev == 4:
@@ -308,7 +317,7 @@ func uploadMain(rc *RunCtx) {
 	st := rc.St
 	w := NewWorld(rc)
 	defer w.Shutdown()
-	spec := GenTorSpec(st, SpecOpts{MaxPieces: 8, Big: st.Bool(1, 6), MultiFile: 1})
+	spec := GenTorSpec(st, SpecOpts{MaxPieces: 8, Big: st.Bool(1, 6), MultiFile: 1, Huge: true})
 	config.SetIdleRate(0)
 	config.SetUploadRate(float64(simrt.Pick(st, 512*1024, 16*1024, 1<<30)))
 	t, err := w.AddTorrent(spec, false, "")
@@ -317,13 +326,21 @@ func uploadMain(rc *RunCtx) {
 		return
 	}
 	np := spec.Geo.NPieces
+	lp := spec.LivePieces()
 	var held []int
-	for i := 0; i < np; i++ {
+	for _, i := range lp {
 		if st.Bool(3, 4) {
 			held = append(held, i)
 		}
 	}
 	w.Preload(t, spec, held)
+	// a piece to ask for: any piece; in a sparse torrent mostly one that can be held
+	pick := func() int {
+		if spec.Sparse && st.Bool(7, 8) {
+			return lp[st.Choice(len(lp))]
+		}
+		return st.Choice(np)
+	}
 	isHeld := map[int]bool{}
 	for _, i := range held {
 		isHeld[i] = true
@@ -359,7 +376,7 @@ func uploadMain(rc *RunCtx) {
 				}
 				switch st.Weighted(10, 2, 2, 1, 1, 1, 1) {
 				case 0: // a request, mostly valid
-					i := st.Choice(np)
+					i := pick()
 					pl := spec.Geo.PieceLen(i)
 					b := uint32(st.Choice(int((pl+chunkSize-1)/chunkSize))) * chunkSize
 					l := uint32(min(int64(chunkSize), pl-int64(b)))
@@ -399,7 +416,7 @@ func uploadMain(rc *RunCtx) {
 					if flood {
 						simrt.Fault("request-flood")
 						for k := 0; k < 300+st.Choice(200); k++ {
-							i := st.Choice(np)
+							i := pick()
 							p.Request(uint32(i), uint32(st.Choice(spec.Geo.Chunks(i)))*chunkSize, chunkSize)
 						}
 					}
